@@ -34,6 +34,7 @@ pub fn gen_case(prop: &str, seed: u64) -> Case {
             p.w_create = 8;
             p.w_drop = 5;
             p.pk_constraint_pct = 20;
+            p.unicode_names_pct = 15;
             p.w_view = if avoid.on { 0 } else { 3 };
             p.w_index = if avoid.on { 0 } else { 2 };
             p.w_function = 2;
@@ -106,6 +107,7 @@ pub fn gen_case(prop: &str, seed: u64) -> Case {
             p.borrow_key_pct = *krng.pick(&[0u64, 20, 40]);
             p.same_key_type_pct = 60;
             p.pk_constraint_pct = 12;
+            p.unicode_names_pct = 8;
             p.invalid_pct = 8;
             p.pk_first_only = false;
             p.key_first_projection = false;
@@ -186,6 +188,7 @@ pub fn gen_case(prop: &str, seed: u64) -> Case {
         "C04" => {
             let mut p = Profile::base();
             p.max_steps = 7;
+            p.unicode_names_pct = 30;
             p.w_create = 8;
             p.w_drop = 4;
             p.w_insert = 30;
